@@ -66,33 +66,47 @@ def angdiff(a, b, period=360.0):
 
 # --------------------------------------------------------------- FITS WCS
 class ZWCS(object):
-    """Zenithal FITS-WCS (SIN/TAN/ZEA/ARC/STG; Calabretta & Greisen 2002), no
-    rotation (diagonal CDELT/CD), LONPOLE=180 (valid for CRVAL2 < 90).
-    Pixel coordinates are FITS 1-based (axis1, axis2)."""
+    """Zenithal FITS-WCS (SIN/TAN/ZEA/ARC/STG; Calabretta & Greisen 2002), LONPOLE=180 (valid for CRVAL2 < 90).
+    Pixel coordinates are FITS 1-based (axis1, axis2).  Linear part: CD = R(rot) . diag(cdelt1, cdelt2), i.e. the CROTA2
+    convention; rot = 0 is the rotation-free CDELT header."""
 
     PROJ = ("SIN", "TAN", "ZEA", "ARC", "STG")
 
-    def __init__(self, proj, crval1, crval2, crpix1, crpix2, cdelt1, cdelt2):
+    def __init__(self, proj, crval1, crval2, crpix1, crpix2, cdelt1, cdelt2, rot=0.0):
         assert proj in self.PROJ
         self.proj = proj
         self.crval1, self.crval2 = float(crval1), float(crval2)
         self.crpix1, self.crpix2 = float(crpix1), float(crpix2)
         self.cdelt1, self.cdelt2 = float(cdelt1), float(cdelt2)
+        self.rot = float(rot)
+        cr, sr = (math.cos(self.rot * D2R), math.sin(self.rot * D2R)) if self.rot else (1.0, 0.0)
+        self.cd = np.array([[self.cdelt1 * cr, -self.cdelt2 * sr], [self.cdelt1 * sr, self.cdelt2 * cr]])
+        self.icd = np.linalg.inv(self.cd)
 
     @classmethod
     def from_header(cls, h):
         proj = str(h["CTYPE1"])[-3:]
-        cd1 = h["CDELT1"] if "CDELT1" in h else h["CD1_1"]
-        cd2 = h["CDELT2"] if "CDELT2" in h else h["CD2_2"]
-        return cls(proj, h["CRVAL1"], h["CRVAL2"], h["CRPIX1"], h["CRPIX2"], cd1, cd2)
+        if "CDELT1" in h:
+            return cls(proj, h["CRVAL1"], h["CRVAL2"], h["CRPIX1"], h["CRPIX2"], h["CDELT1"], h["CDELT2"])
+        c11, c12, c21, c22 = h["CD1_1"], h.get("CD1_2", 0.0), h.get("CD2_1", 0.0), h["CD2_2"]
+        if c12 == 0.0 and c21 == 0.0:
+            return cls(proj, h["CRVAL1"], h["CRVAL2"], h["CRPIX1"], h["CRPIX2"], c11, c22)
+        rot = math.atan2(c21, c11) * R2D if c11 or c21 else 0.0
+        # cdelt1 < 0 by convention here: (c11, c21) = cdelt1 (cos r, sin r)
+        rot = (rot + 180.0) % 360.0
+        cdelt1 = -math.hypot(c11, c21)
+        cr, sr = math.cos(rot * D2R), math.sin(rot * D2R)
+        cdelt2 = c22 * cr - c12 * sr
+        return cls(proj, h["CRVAL1"], h["CRVAL2"], h["CRPIX1"], h["CRPIX2"], cdelt1, cdelt2, rot)
 
     def header_cards(self, cd=False):
         c = {"CTYPE1": "RA---" + self.proj, "CTYPE2": "DEC--" + self.proj,
              "CRVAL1": self.crval1, "CRVAL2": self.crval2,
              "CRPIX1": self.crpix1, "CRPIX2": self.crpix2,
              "CUNIT1": "deg", "CUNIT2": "deg"}
-        if cd:
-            c.update({"CD1_1": self.cdelt1, "CD2_2": self.cdelt2, "CD1_2": 0.0, "CD2_1": 0.0})
+        if cd or self.rot:
+            c.update({"CD1_1": float(self.cd[0, 0]), "CD1_2": float(self.cd[0, 1]), "CD2_1": float(self.cd[1, 0]),
+                      "CD2_2": float(self.cd[1, 1])})
         else:
             c.update({"CDELT1": self.cdelt1, "CDELT2": self.cdelt2})
         return c
@@ -125,8 +139,14 @@ class ZWCS(object):
             return 2 * np.sin(c / 2)
 
     def pix2sky(self, p1, p2):
-        x = (np.asarray(p1, dtype=float) - self.crpix1) * self.cdelt1 * D2R
-        y = (np.asarray(p2, dtype=float) - self.crpix2) * self.cdelt2 * D2R
+        d1 = np.asarray(p1, dtype=float) - self.crpix1
+        d2 = np.asarray(p2, dtype=float) - self.crpix2
+        if self.rot:
+            x = (self.cd[0, 0] * d1 + self.cd[0, 1] * d2) * D2R
+            y = (self.cd[1, 0] * d1 + self.cd[1, 1] * d2) * D2R
+        else:
+            x = d1 * self.cdelt1 * D2R
+            y = d2 * self.cdelt2 * D2R
         rho = np.hypot(x, y)
         c = self._colat(rho)
         with np.errstate(invalid="ignore", divide="ignore"):
@@ -156,6 +176,8 @@ class ZWCS(object):
             ux = np.where(r > 0, a / r, 0.0)
             uy = np.where(r > 0, b / r, 0.0)
         x, y = rho * ux * R2D, rho * uy * R2D
+        if self.rot:
+            return (self.icd[0, 0] * x + self.icd[0, 1] * y + self.crpix1, self.icd[1, 0] * x + self.icd[1, 1] * y + self.crpix2)
         return x / self.cdelt1 + self.crpix1, y / self.cdelt2 + self.crpix2
 
 
